@@ -142,3 +142,9 @@ func HashesOf(es []iface.IPFSLogEntry) []string {
 	}
 	return r
 }
+
+// NewStaticKeystore makes an empty static keystore (for pinned-vector identities).
+func NewStaticKeystore() *StaticKeystore { return &StaticKeystore{keys: map[string]crypto.PrivKey{}} }
+
+// Put registers a key under a name.
+func (k *StaticKeystore) Put(name string, key crypto.PrivKey) { k.keys[name] = key }
